@@ -225,6 +225,66 @@ def corpus(tier, seed):
     return inputs
 
 
+def tiny_margins(res, tier, seed):
+    """a per-candidate limit or a budget exceeded (or missed) by 1e-13 .. 1e-16 of a point: the statement knows no tolerance -- over the limit by any
+    margin is refused with TypeError, under it by any margin is accepted.  The margins are outside TLC's integers; the expected outcome is read
+    off the construction itself (python_compared)."""
+    from ..common import load_votekit
+    load_votekit()
+    from votekit import Ballot, PreferenceProfile
+    import votekit.elections as VE
+    rng = random.Random(5151 + seed)
+    n = 0
+    for _ in range(160 if tier == "quick" else 3000):
+        eps = F(1, 10 ** rng.choice([13, 14, 16]))
+        over = rng.random() < 0.6
+        rule = rng.choice(["Rating", "GeneralRating", "Limited", "Cumulative"])
+        m = rng.randint(1, 3)
+        L = k = F(1)
+        # (a Ballot stores scores with denominators up to 10^6 -- C11 -- so the hair's breadth sits in the *limit* handed to the rule, or in
+        #  two scores with coprime denominators near 10^6 whose sum misses a whole budget by 1/(q*r) ~ 1e-12)
+        d = eps if over else -eps
+        s1 = F(rng.choice([1, 2, 3, 5]))
+        if rule in ("Rating", "GeneralRating") and rng.random() < 0.6:
+            L = s1 - d                                                  # the score is s1, the per-candidate limit a hair below / above it
+            k = 3 * s1
+            bad = {"A": s1}
+        elif rule == "GeneralRating":
+            half = s1 / 2
+            bad = {"A": half, "B": half}                                # spends s1; the budget is a hair below / above
+            k = s1 - d
+            L = half                                                    # each score sits exactly on the per-candidate limit; L <= k
+        else:                                                           # Cumulative (budget = m, an integer): coprime denominators near 10^6
+            rule = "Cumulative"
+            q_, r_ = 999983, 999979          # two primes below 10^6: both scores are stored exactly
+            a = pow(r_, -1, q_)
+            sign = 1 if over else -1
+            a = a if over else q_ - a
+            b = (m * q_ * r_ + sign - a * r_) // q_
+            bad = {"A": F(a, q_), "B": F(b, r_)}
+            assert sum(bad.values()) == m + F(sign, q_ * r_)
+            L, k = F(m), F(m)
+        ballots = [Ballot(scores={"C": F(1, 2)}, weight=2), Ballot(scores=bad, weight=1), Ballot(scores={"A": F(1, 2), "B": F(1, 4)}, weight=F(1, 2))]
+        rng.shuffle(ballots)
+        prof = PreferenceProfile(ballots=tuple(ballots), candidates=("A", "B", "C"))
+        ctor = {"Rating": lambda: VE.Rating(prof, m=m, L=L, tiebreak="random"), "GeneralRating": lambda: VE.GeneralRating(prof, m=m, L=L, k=k, tiebreak="random"),
+                "Limited": lambda: VE.Limited(prof, m=m, k=k, tiebreak="random"), "Cumulative": lambda: VE.Cumulative(prof, m=m, tiebreak="random")}[rule]
+        n += 1
+        try:
+            with quiet():
+                ctor()
+            got = "ok"
+        except Exception as ex:  # noqa
+            got = type(ex).__name__
+        want = "TypeError" if over else "ok"
+        if got != want:
+            res.violation("rating:TinyMargin(py):%s" % ("OverLimitAccepted" if over else "UnderLimitRefused:" + got),
+                          "%s with L=%s k=%s: a ballot %s the limit by %s gives %s (expected %s)" % (rule, L, k, "over" if over else "under", eps, got, want),
+                          {"rule": rule, "m": m, "L": str(L), "k": str(k), "bad": {c: str(v) for c, v in bad.items()}})
+    res.notes["python_compared"] = n
+    res.notes["python_compared_note"] = "limits exceeded / missed by 1e-13..1e-16 of a point: outcome class compared with the statement (no tolerance)"
+
+
 def run(tier, seed, replay=None):
     res = Result(PID, tier, seed)
     scratch(PID)
@@ -269,4 +329,6 @@ def run(tier, seed, replay=None):
                 res.violation("rating:OutcomeSetSize", "over all outcomes of its random draws the code produces %d different accepted results where the specification allows %d"
                               % (g["n"], g["nout"]), {"input": g["t"]["_inp"]})
     res.notes["outcome_sets_compared"] = compared
+    if not replay:
+        tiny_margins(res, tier, seed)
     return res
